@@ -163,4 +163,19 @@ for _pid, _extra in (("C09", ""), ("C10", ""), ("C11", " — corpus kinds cycle 
                         "(the quantised integers are read through the verif-hooks trace)"],
     }
 
-SETUP_EXTRA = [extras.setup_feature_builds, extras.build_tantivy]
+PROPS["C19"] = {
+    "families": ["C19"],
+    "bin_build": extras.build_repo_bins,
+    "nontrivial": lambda line, out: not out.startswith(("err", "bad")),
+    "rule": "250 (quick) / 5000 (thorough) random models with CSV-hostile words (commas, quotes, spaces, newlines, CR, multi-byte), "
+            "32-bit and negative weights and arbitrary comments; replace_dictionary with kept / edited / new / malformed records and a "
+            "score-delta oracle on a text; the weights column as written by the REAL manipulate_model --dump-dict compared with the "
+            "model's joinWeights and parsed back; hand-written malformed weight strings; plus the CLI dump->replace round trip on "
+            "40 (quick) / 400 (thorough) models; non-trivial = distinct case that produced a model / a parsed list",
+    "scopes": {},
+    "extras": [extras.c19_cli_roundtrip],
+    "assumptions": ["csv + serde round-trip three-field records unchanged (external contract, exercised end-to-end by the CLI step)",
+                    "zstd round-trips the model file"],
+}
+
+SETUP_EXTRA = [extras.build_repo_bins, extras.setup_feature_builds, extras.build_tantivy]
